@@ -301,6 +301,19 @@ func c10SameDestination(c *Ctx, k c10WideCase, t reflect.Type, doc2 string) {
 				return
 			}
 		}
+		// the second decode used no zero-copy flag: what it left in the variable - also where it merged into what the
+		// first one had put there (members of a map that were already present, elements reused) - owes nothing to its input
+		if err == nil && !zc {
+			before := dumpOf(target)
+			for i := range in2 {
+				in2[i] = 'X'
+			}
+			c10Churn(len(in2))
+			if after := dumpOf(target); after != before {
+				fail("values left by a second decode into the same variable (no zero-copy flag) unchanged when its input is overwritten: "+clipS(before), clipS(after))
+				return
+			}
+		}
 	}
 }
 
@@ -478,12 +491,16 @@ func c10Wide(c *Ctx, shape *jShape) {
 		c10WideDecode(c, c10WideCase{Shape: shape, Seed: c.Seed, Doc: doc, Flags: int(fl), API: api}, t)
 	}
 	// two decodes into the same variable (types that can hold byte slices)
-	if strings.Contains(shape.String(), "raw") || strings.Contains(shape.String(), "bytes") || strings.Contains(shape.String(), "any") {
+	if strings.Contains(shape.String(), "raw") || strings.Contains(shape.String(), "bytes") || strings.Contains(shape.String(), "any") || strings.Contains(shape.String(), "map") {
 		for i := 0; i+1 < len(docs) && i < 6; i++ {
 			c.Case()
 			c10SameDestination(c, c10WideCase{Shape: shape, Seed: c.Seed, Doc: docs[i], Doc2: docs[i+1], API: "two decodes into the same variable"}, t, docs[i+1])
 			c.Case()
 			c10SameDestination(c, c10WideCase{Shape: shape, Seed: c.Seed, Doc: docs[i+1], Doc2: docs[i], API: "two decodes into the same variable"}, t, docs[i])
+			if i < 4 { // the same document twice: every member, key and element is already there the second time
+				c.Case()
+				c10SameDestination(c, c10WideCase{Shape: shape, Seed: c.Seed, Doc: docs[i], Doc2: docs[i], API: "two decodes into the same variable"}, t, docs[i])
+			}
 		}
 	}
 	eapis := []string{"json.Marshal", "json.Append", "Encoder.Encode", "json.Marshal(large)", "json.Append(large)"}
